@@ -70,6 +70,12 @@ func init() {
 	register(&Property{ID: "C12", Level: "exploration", World: c12World, Replay: func(p *Plan) *Violation { return c12Exec(p, nil) },
 		Worlds: map[string]int{"quick": 2500, "thorough": 12000}, Batch: map[string]int{"quick": 1, "thorough": 4},
 		Rule: "worlds = generated program with <<stop>> at any depth, option groups with empty bodies at the tail, commands, calls and sets queued behind the end x a path to the first end x 1-8 further calls with in-range, out-of-range, negative and huge arguments interleaved with host writes, clock advances and releases, optionally followed by a restore and a second round; non-trivial = >=2 post-end calls, one with a non-zero argument, on a program with a stop or an option group; distinct by hash of (program, path, post-end schedule, round)"})
+	register(&Property{ID: "C05", Level: "fault_enumeration", World: c05World, Replay: c05Replay, Fixed: c05Fixed,
+		Worlds: map[string]int{"quick": 60, "thorough": 400}, Batch: map[string]int{"quick": 1, "thorough": 3},
+		Rule: "a case is one faulted delivery of a base script through the real NewDialogueRunner: EVERY truncation offset and EVERY single-byte deletion of each generated base script (strided only above 700 bytes; the repo's own .yarn fixtures are strided), plus sampled byte/bit flips, insertions of syntax fragments, line swaps/duplications/drops/re-indentations (incl. tab/space mixes), read errors at an offset, byte-level splits over 2-3 readers, seed strings, random byte strings and the empty input, each under one of 8 chunkings / 2 EOF styles; judged against an independent lexer+parser run with a counting error listener; non-trivial = the fault changed the stream's validity verdict; distinct by hash of the faulted bytes"})
+	register(&Property{ID: "C20", Level: "exploration", World: c20World, Replay: c20Replay,
+		Worlds: map[string]int{"quick": 1500, "thorough": 8000}, Batch: map[string]int{"quick": 1, "thorough": 4},
+		Rule: "three kinds of cases: (1) histories of 1-120 Enqueue/Dequeue/Peek/Size ops on container.Queue[int] with unique values against a slice, biased to fill, shift and grow the ring buffer; (2) histories of Push/PushAll/Pop/Peek/Size/Clear on container.Stack[int]; (3) token streams of the real lexer over a generated, deeply indented script and its stream faults (every truncation offset, every byte deletion, sampled mutations): DEDENT never exceeds INDENT, both are equal at EOF, one EOF ends the stream, no nil token; non-trivial = queue history with >=1 growth / stack depth >=4 / token stream with >=2 INDENTs; distinct by hash of the history or bytes"})
 }
 
 // capTB lets rapid.Check report into the harness instead of failing the test.
